@@ -19,10 +19,14 @@
     properly nested content — terminators inside brackets are fine) followed by a terminator,
     `_consume_value_until` returns exactly the value's tokens and leaves the terminator in
     the stream.
+  * `C14_method_noexcept_value`: one position end to end — for `noexcept ( content )` after a
+    method's parameter list, with properly nested content, the `noexcept` field holds exactly
+    the content tokens: the parentheses are left out and nothing else is.
   Which terminator set each position uses and values outside `TopLevel` (the `<` heuristic):
   oracle `positions` and correspondence `parse[values]` (named; not proof).
 -/
 import CxxModel.Theorems.Stream
+import CxxModel.Theorems.MethodEnd
 import CxxModel.Tables
 namespace Cxx
 
@@ -75,5 +79,16 @@ example : TopLevel [",", ";"] ["NAME", "(", "NAME", ",", "NAME", ")", "+", "NAME
       (.atom _ _ (by decide) (by decide) (.atom _ _ (by decide) (by decide) (.atom _ _ (by decide) (by decide) .nil)))
       (.atom _ _ (by decide) (by decide) (.atom _ _ (by decide) (by decide)
         (.group "[" "]" ["INT_CONST_DEC"] [] (by decide) (by decide) (.atom _ _ (by decide) (by decide) .nil) .nil))))
+
+
+theorem C14_method_noexcept_value (env : Env) (G : Nat) (c : P.Core) (m : Function) (w : World) (kw op : Tok) (b1 b2 b' : Buf)
+    (content : List Tok) (closer : Tok)
+    (h1 : tokenEofOk env.cfg w.buf = .ok (some kw, b1)) (hk : kw.value = "noexcept")
+    (h2 : tokenEofOk env.cfg b1 = .ok (some op, b2)) (ho : op.type = "(")
+    (hy : Yields env.cfg b2 (content ++ [closer]) b') (hn : Nested (content.map (·.type))) (hc : closer.type = ")")
+    (hG : content.length + 1 ≤ G) :
+    ∃ (w' : World) (v : Value), interp env (P.methodEndBody (G + 1) c m) w = (w', .ok (.inl { m with noexcept := some v })) ∧
+      w'.buf = b' ∧ SameParse w w' ∧ v.tokens.map (fun t => (t.type, t.value)) = content.map Tok.tv :=
+  methodEndBody_noexcept env G c m w kw op b1 b2 b' content closer h1 hk h2 ho hy hn hc hG
 
 end Cxx
